@@ -58,9 +58,7 @@ def setup():
 def claimed():
     out = {}
     for p in sorted(HIST_PROPS):
-        if p in ("C05", "C06"):
-            continue
-        out[p] = "hist"
+        out[p] = "fault" if p in ("C05", "C06") else "hist"
     return out
 
 
